@@ -129,6 +129,10 @@ Fixpoint update {A} (l : list A) (i : nat) (x : A) : list A :=
 Definition get (st : state) (o : nat) : option obj := nth_error (heap st) o.
 Definition put (st : state) (o : nat) (ob : obj) : state := mkState (update (heap st) o ob) (inflight st).
 
+(* what queries may read of an object: its kind and public attributes (never flag or cache) *)
+Definition view (st : state) (o : nat) : option (kind * list (string * value)) :=
+  match get st o with Some ob => Some (okind ob, oattrs ob) | None => None end.
+
 Definition with_attrs (ob : obj) (a : list (string * value)) : obj :=
   mkObj (okind ob) a (onitems ob) (ofrozen ob) (ocache ob).
 Definition with_nitems (ob : obj) (n : nat) : obj :=
@@ -344,13 +348,13 @@ Definition arg_for (a : args) (p : nat) : M Z :=
 
 (* TuplePrior.value_for_arguments: prior members ++ float members sorted by name *)
 Definition tuple_values (a : args) (t : nat) : M inst :=
-  ob <- gets (fun st => get st t) ;;
+  ob <- gets (fun st => view st t) ;;
   match ob with
   | None => raise EAttribute
-  | Some ob =>
-      let pri := filter (fun kv => match snd kv with VPrior _ => true | _ => false end) (oattrs ob) in
+  | Some (_, tattrs) =>
+      let pri := filter (fun kv => match snd kv with VPrior _ => true | _ => false end) tattrs in
       let flo := sort_by (fun x y : string * value => str_le (fst x) (fst y))
-                   (filter (fun kv => match snd kv with VConst _ => true | _ => false end) (oattrs ob)) in
+                   (filter (fun kv => match snd kv with VConst _ => true | _ => false end) tattrs) in
       vs <- mapM (fun kv : string * value =>
                     match snd kv with
                     | VPrior p => arg_for a p
@@ -368,56 +372,55 @@ Definition item_oid (it : item) : nat := match snd it with LObj o => o | _ => 0 
 
 Definition raw_inst (v : value) : inst := match v with VConst c => IVal c | _ => IRaw end.
 
+Definition is_pm (st : state) (c : nat) : bool :=
+  match view st c with Some (k, _) => is_pm_kind k | None => false end.
+
 Fixpoint inst_for (cfg : config) (n : nat) (a : args) (o : nat) : M inst :=
   match n with
   | 0 => raise EOther
   | S n' =>
-      ob <- gets (fun st => get st o) ;;
+      ob <- gets (fun st => view st o) ;;
       match ob with
       | None => raise EAttribute
-      | Some ob =>
-          match okind ob with
-          | KTuple => ret IRaw
-          | KColl =>
-              fs <- mapM (fun kv : string * value =>
-                            match snd kv with
-                            | VPrior p => v <- arg_for a p ;; ret (fst kv, IVal v)
-                            | VConst c => ret (fst kv, IVal c)
-                            | VRef c =>
-                                k <- gets (fun st => match get st c with
-                                                     | Some cb => is_pm_kind (okind cb) | None => false end) ;;
-                                if k then i <- inst_for cfg n' a c ;; ret (fst kv, i)
-                                else ret (fst kv, IRaw)
-                            end) (oattrs ob) ;;
-              ret (IObj fs)
-          | KModel cls =>
-              let ctor := ctor_names cfg cls in
-              let attribute_arguments := filter (fun kv => smemb (fst kv) ctor) (oattrs ob) in
-              tc <- call_direct o DTuple ;; tl <- as_list tc ;;
-              targs <- mapM (fun it => v <- tuple_values a (item_oid it) ;; ret (item_name it, v)) tl ;;
-              mc <- call_direct o DPriorModel ;; ml <- as_list mc ;;
-              margs <- mapM (fun it => v <- inst_for cfg n' a (item_oid it) ;; ret (item_name it, v)) ml ;;
-              pc <- call_direct o DPrior ;; pl <- as_list pc ;;
-              pargs <- mapM (fun it => v <- arg_for a (leaf_pid (snd it)) ;; ret (item_name it, IVal v)) pl ;;
-              let given := targs ++ margs ++ pargs in
-              if forallb (fun kv => smemb (fst kv) ctor) given then
-                let fields := map (fun c =>
-                    match sassoc c pargs with
-                    | Some i => (c, i)
-                    | None => match sassoc c (rev (targs ++ margs)) with
-                              | Some i => (c, i)
-                              | None => match sassoc c attribute_arguments with
-                                        | Some v => (c, raw_inst v)
-                                        | None => (c, IVal 0)
-                                        end
-                              end
-                    end) ctor in
-                let extras := flat_map (fun kv : string * value =>
-                    if smemb (fst kv) ctor then []
-                    else match snd kv with VConst c => [(fst kv, IVal c)] | _ => [] end) (oattrs ob) in
-                ret (IObj (fields ++ extras))
-              else raise ETypeError
-          end
+      | Some (KTuple, _) => ret IRaw
+      | Some (KColl, attrs) =>
+          fs <- mapM (fun kv : string * value =>
+                        match snd kv with
+                        | VPrior p => v <- arg_for a p ;; ret (fst kv, IVal v)
+                        | VConst c => ret (fst kv, IVal c)
+                        | VRef c =>
+                            k <- gets (fun st => is_pm st c) ;;
+                            if k then i <- inst_for cfg n' a c ;; ret (fst kv, i)
+                            else ret (fst kv, IRaw)
+                        end) attrs ;;
+          ret (IObj fs)
+      | Some (KModel cls, attrs) =>
+          let ctor := ctor_names cfg cls in
+          let attribute_arguments := filter (fun kv => smemb (fst kv) ctor) attrs in
+          tc <- call_direct o DTuple ;; tl <- as_list tc ;;
+          targs <- mapM (fun it => v <- tuple_values a (item_oid it) ;; ret (item_name it, v)) tl ;;
+          mc <- call_direct o DPriorModel ;; ml <- as_list mc ;;
+          margs <- mapM (fun it => v <- inst_for cfg n' a (item_oid it) ;; ret (item_name it, v)) ml ;;
+          pc <- call_direct o DPrior ;; pl <- as_list pc ;;
+          pargs <- mapM (fun it => v <- arg_for a (leaf_pid (snd it)) ;; ret (item_name it, IVal v)) pl ;;
+          let given := targs ++ margs ++ pargs in
+          if forallb (fun kv => smemb (fst kv) ctor) given then
+            let fields := map (fun c =>
+                match sassoc c pargs with
+                | Some i => (c, i)
+                | None => match sassoc c (rev (targs ++ margs)) with
+                          | Some i => (c, i)
+                          | None => match sassoc c attribute_arguments with
+                                    | Some v => (c, raw_inst v)
+                                    | None => (c, IVal 0)
+                                    end
+                          end
+                end) ctor in
+            let extras := flat_map (fun kv : string * value =>
+                if smemb (fst kv) ctor then []
+                else match snd kv with VConst c => [(fst kv, IVal c)] | _ => [] end) attrs in
+            ret (IObj (fields ++ extras))
+          else raise ETypeError
       end
   end.
 
@@ -501,15 +504,28 @@ Fixpoint freeze (n : nat) (o : nat) : M unit :=
       modify o (fun ob => with_frozen ob true)
   end.
 
-Fixpoint unfreeze (n : nat) (o : nat) : M unit :=
+(* unfreeze: `_is_frozen = False` first, so direct_tuples_with_type is evaluated uncached;
+   no exception can occur, hence a plain state function *)
+Definition pm_children (st : state) (l : list (string * value)) : list nat :=
+  map item_oid (direct_items st DAbstractModel l).
+
+Fixpoint unfreeze_st (n : nat) (o : nat) (st : state) : state :=
   match n with
-  | 0 => raise EOther
+  | 0 => st
   | S n' =>
-      _ <- modify o (fun ob => with_frozen ob false) ;;
-      c <- call_direct o DAbstractModel ;; l <- as_list c ;;
-      _ <- mapM (fun it : item => if Nat.eqb (item_oid it) o then ret tt else unfreeze n' (item_oid it)) l ;;
-      modify o (fun ob => with_cache ob [])
+      match get st o with
+      | None => st
+      | Some ob =>
+          let st1 := put st o (with_frozen ob false) in
+          let st2 := fold_left (fun s c => if Nat.eqb c o then s else unfreeze_st n' c s)
+                               (pm_children st1 (oattrs ob)) st1 in
+          match get st2 o with
+          | Some ob2 => put st2 o (with_cache ob2 [])
+          | None => st2
+          end
+      end
   end.
+Definition unfreeze (n : nat) (o : nat) : M unit := fun st => (unfreeze_st n o st, Ok tt).
 
 (* ------------------------------------------------------------------ modification *)
 Definition frozen_pm (st : state) (v : value) : bool :=
@@ -538,7 +554,8 @@ Definition op_set (o : nat) (name : string) (v : value) : M unit :=
             fz <- gets (fun st => frozen_pm st v) ;;
             if fz then raise EAssertion
             else if has_us name then
-              tc <- call_direct o DTuple ;; tl <- as_list tc ;;
+              (* self.tuple_prior_tuples: uncached, the target is not frozen here *)
+              tl <- gets (fun st => direct_items st DTuple (oattrs ob)) ;;
               match filter (fun it => String.eqb (item_name it) (before_us name)) tl with
               | it :: _ => modify (item_oid it) (fun tb => with_attrs tb (set_attr name v (oattrs tb)))
               | [] => modify o (fun ob => with_attrs ob (set_attr name v (oattrs ob)))
